@@ -223,6 +223,9 @@ def run_property(mod, pid, tier, seed, level, explanation=None):
     ctx = Ctx(pid, tier, seed)
     try:
         harnesses = mod.build(ctx)
+        if os.environ.get("VERIF_ONLY"):   # development aid (never set by the registered commands): run only the harnesses whose name matches
+            import re as _re
+            harnesses = [h for h in harnesses if _re.search(os.environ["VERIF_ONLY"], h.name)]
         for what, d in ctx.pre_violations:
             print("VIOLATION property=%s replay=%s" % (pid, d)); print("  " + what)
         results = ctx.runner.run(harnesses)
